@@ -18,7 +18,8 @@ Prop  == Aux.prop
 
 
 IsBio(cfg)     == cfg \in {"BioConsert", "Bio[]", "Bio()", "BioCo", "Bio[Borda]", "Bio[Copeland,KwikSort]", "Bio[PickAPerm]",
-                           "Bio[PickAPerm,Copeland]", "Bio[Borda,Copeland,KwikSort]", "Bio[Borda,BordaBid]"}
+                           "Bio[PickAPerm,Copeland]", "Bio[Borda,Copeland,KwikSort]", "Bio[Borda,BordaBid]",
+                           "Bio[BioCo]", "Bio{Copeland}", "BioValues[Borda]"}
 \* an explicitly empty list (or tuple) of starting algorithms is the default configuration
 HasStarters(cfg) == IsBio(cfg) /\ cfg \notin {"BioConsert", "Bio[]", "Bio()"}
 IsExact(cfg)   == cfg \in {"ExactPulp", "Exact(opt)", "Exact(noopt)", "ExactCplex(opt)", "ExactCplex(noopt)",
